@@ -314,4 +314,21 @@ def apply_op(op, root, nodes, t, i, val, v2=0):
   raise Assume()
 
 
+def applicable(op, node, t):
+  """Whether `op` addresses a node of this kind at all (cheap pre-check used to cut the selector space)."""
+  if op in ROOT_OPS:
+    return t != 0 and bool(list(node.sym_keys()))
+  if isinstance(node, pg.List):
+    return op in LIST_OPS
+  if isinstance(node, pg.Dict):
+    return op in DICT_OPS
+  if isinstance(node, pg.Object):
+    return op in OBJ_OPS
+  return False
+
+
+def fanout(node):
+  return len(list(node.sym_keys()))
+
+
 EXPECTED_ERRORS = (TypeError, ValueError, KeyError, IndexError, AttributeError, pg.WritePermissionError)
